@@ -389,6 +389,8 @@ class Flow:
                     ivals = self._apply_returns(it, ivals, [], {}, iter_node)
             else:
                 et = ity.elem()
+                if ity.name in ("SortedDict", "dict"):
+                    ivals = set()       # iterating a mapping yields its (immutable) keys
         self.assign(target, et, self.read_all(ivals, "[]"), iter_node)
 
     # ---- constant folding on specialised flags ---------------------------------------------------
@@ -1100,7 +1102,7 @@ class Flow:
         if m in ("values",):
             return Ty("Iterable", (rt.value(),) if rt.value() else ()), rv
         if m in ("keys",):
-            return Ty("Iterable", (rt.args[0],) if rt.args else ()), rv
+            return Ty("Iterable", (rt.args[0],) if rt.args else ()), set()     # keys are hashable values, no aliasing
         if m in ("items",):
             if len(rt.args) == 2:
                 return Ty("Iterable", (Ty("tuple", rt.args),)), rv
@@ -1124,6 +1126,13 @@ class Flow:
         if m == "astype":
             return rt, set()
         return None, set()
+
+
+# fields whose values are immutable whatever the owner (Unit / Segment / Continuum scalars)
+IMMUTABLE_FIELDS = {"annotation": Ty("str", opt=True), "segment": Ty("Segment"), "start": T_FLOAT, "end": T_FLOAT,
+                    "duration": T_FLOAT, "uri": T_STR, "bound_inf": T_FLOAT, "bound_sup": T_FLOAT,
+                    "best_window_size": T_FLOAT, "delta_empty": T_FLOAT, "alpha": T_FLOAT, "beta": T_FLOAT,
+                    "magnitude": T_FLOAT}
 
 
 class Program:
@@ -1187,8 +1196,16 @@ class Program:
     def av_type(self, fl: Flow, av: AV) -> Optional[Ty]:
         M = self.model
         t: Optional[Ty] = None
+        if av.path and av.path[-1] in IMMUTABLE_FIELDS:
+            return IMMUTABLE_FIELDS[av.path[-1]]
         if av.kind == "param":
             t = fl.types.get(av.name)
+        elif av.kind == "xparam":
+            qn, _, pn = av.name.rpartition(":")
+            of = self._flows.get((qn, ()))
+            if of is None:
+                of = next((x for (q, _c), x in self._flows.items() if q == qn), None)
+            t = of.types.get(pn) if of is not None else None
         elif av.kind == "fresh":
             tag = av.name.rsplit(":", 1)[-1].split("@")[0]
             if tag in M.classes:
